@@ -302,6 +302,20 @@ func (c *canoner) load(u *ssa.UnOp, d int) string {
 		return "global(" + a.Pkg.Pkg.Name() + "." + a.Name() + ")"
 	case *ssa.Alloc:
 		vals, exact := c.e.ReachingStores(a, u)
+		if !exact {
+			// a variable shared with closures: a store earlier in the same
+			// block with no call in between is still the value read
+			if b := u.Block(); b != nil {
+				for i := indexIn(b, u) - 1; i >= 0; i-- {
+					if st, ok := b.Instrs[i].(*ssa.Store); ok && st.Addr == a {
+						return c.val(st.Val, d)
+					}
+					if _, ok := b.Instrs[i].(ssa.CallInstruction); ok {
+						break
+					}
+				}
+			}
+		}
 		if exact && len(vals) == 1 {
 			if vals[0] == nil {
 				return "zero(" + allocName(a) + ")"
